@@ -1414,19 +1414,50 @@ func (e *Engine) loopHeader(st *State, fr *Frame, b, prev *ssa.BasicBlock, ord i
 			hv[ph] = v // pointers etc. are loop-invariant in this code base
 		}
 	}
-	bindPhis(st, hv)
 	{
-		it := mkIntVarR(tag+".loopiter", big0, nil)
-		st.names["loopiter"] = it
-		st.names[itKey] = it
-		st.assume(mkLe(mkInt(big0), it))
+		// an upper bound of the iteration count that the invariant itself states (`loopiter <= e`, e of bounded
+		// range) becomes the range of the ghost variable: the invariant is assumed at the head anyway, and a
+		// bounded count lets the counter arithmetic below be recognised as non-wrapping
+		var itHi *big.Int
 		if usesLoopiter(ls) {
-			for _, c := range ctrs {
-				if t := ctrTerm(c); t != nil {
-					st.assume(t)
+			for _, inv := range ls.Invariants {
+				for _, cj := range conjunctsOf(inv.Expr) {
+					be, ok := cj.(*ast.BinaryExpr)
+					if !ok || be.Op != token.LEQ {
+						continue
+					}
+					if id, ok := be.X.(*ast.Ident); !ok || id.Name != "loopiter" {
+						continue
+					}
+					func() {
+						defer func() {
+							if r := recover(); r != nil {
+								if _, ok := r.(engineError); !ok {
+									panic(r)
+								}
+							}
+						}()
+						if _, hi := rangeOf(st.sub(env.term(be.Y))); hi != nil && (itHi == nil || hi.Cmp(itHi) < 0) {
+							itHi = hi
+						}
+					}()
 				}
 			}
 		}
+		it := mkIntVarR(tag+".loopiter", big0, itHi)
+		if usesLoopiter(ls) {
+			// counters are *defined* by the iteration count (the relation is an invariant conjunct, checked on entry
+			// and on every back edge above)
+			for _, c := range ctrs {
+				if _, ok := hv[c.ph].(*Term); ok {
+					hv[c.ph] = mkAdd(mkInt(c.c0), mkMul(mkInt(c.step), it))
+				}
+			}
+		}
+		bindPhis(st, hv)
+		st.names["loopiter"] = it
+		st.names[itKey] = it
+		st.assume(mkLe(mkInt(big0), it))
 	}
 	for _, m := range ls.Modifies {
 		for _, x := range m.Exprs {
@@ -1834,4 +1865,15 @@ func (e *Engine) orientDigits(st *State, lt, x *Term) {
 	for i := int64(0); i < n; i++ {
 		st.addSubst(mkSelect(arr, mkInt64(off+i)), mkSelect(be, mkInt64(i)))
 	}
+}
+
+// conjunctsOf splits a specification expression at its top-level `&&`.
+func conjunctsOf(x ast.Expr) []ast.Expr {
+	if p, ok := x.(*ast.ParenExpr); ok {
+		return conjunctsOf(p.X)
+	}
+	if be, ok := x.(*ast.BinaryExpr); ok && be.Op == token.LAND {
+		return append(conjunctsOf(be.X), conjunctsOf(be.Y)...)
+	}
+	return []ast.Expr{x}
 }
